@@ -78,6 +78,11 @@ fn calc_max_day_cost_per_sec(all_deltas: &Vec<TxDelta>) -> MaxDayCosts {
 
     let mut ignored_delta_descs = Vec::<String>::new();
 
+    // The cost of each security after its last delta of each day. This, and not
+    // the day's maximum, is what a security still costs on later days.
+    let mut day_closing_sec_costs =
+        HashMap::<(Date, Security), GreaterEqualZeroDecimal>::new();
+
     // Keep track of the maximum cost for each security on any date where there's a TxDelta.
     // For example, SECA on 2000-01-01 has ACB 12, ACB 150, and ACB 0, so after the loop below,
     // we'll have a dateCosts[2001-01-01][SECA] = 150
@@ -109,6 +114,7 @@ fn calc_max_day_cost_per_sec(all_deltas: &Vec<TxDelta>) -> MaxDayCosts {
         let day_max_costs: &mut MaxSingleDayCosts =
             max_costs_by_day.get_mut(&date_from_delta).unwrap();
         day_max_costs.observe_new_cost(sec, total_acb);
+        day_closing_sec_costs.insert((date_from_delta, sec.clone()), total_acb);
 
         if !day_zero_sec_costs.contains_key(sec) {
             day_zero_sec_costs.insert(
@@ -129,14 +135,16 @@ fn calc_max_day_cost_per_sec(all_deltas: &Vec<TxDelta>) -> MaxDayCosts {
     for day in sorted_days {
         let max_costs = max_costs_by_day.get_mut(&day).unwrap();
         for sec in &security_set {
-            let last_acb = *max_costs
-                .sec_max_cost_for_day
-                .get(sec)
-                .or_else(|| last_acbs.get(sec))
-                .unwrap_or_else(|| &day_zero_sec_costs.get(sec).unwrap().1);
-
-            last_acbs.insert(sec.clone(), last_acb);
-            if !max_costs.sec_max_cost_for_day.contains_key(sec) {
+            if let Some(closing_acb) =
+                day_closing_sec_costs.get(&(day, sec.clone()))
+            {
+                // Settled today: the day's max is already recorded. Carry the
+                // closing cost (not the max) forward to the following days.
+                last_acbs.insert(sec.clone(), *closing_acb);
+            } else {
+                let last_acb = *last_acbs
+                    .get(sec)
+                    .unwrap_or_else(|| &day_zero_sec_costs.get(sec).unwrap().1);
                 max_costs.observe_new_cost(sec, last_acb);
             }
         }
